@@ -5,6 +5,7 @@
 SPECIFICATION Spec
 CONSTANTS
   MaxObj = 4
+  Extended = FALSE
   Ks = {}
   NsSeq <- Ns1
   WithEmpty = TRUE
